@@ -11023,3 +11023,90 @@ func ruleKeysOwnCtx(prop string) ruleFn {
 		}
 	}
 }
+
+// CODE-BINDINGS-OWN (C03, C04): a condition's script works on its own copy of the bound values.
+func ruleCodeBindingsOwn(prop string) ruleFn {
+	return func(w *World, r *Report) {
+		r.Rule("CODE-BINDINGS-OWN", "a `code` condition keeps or drops a binding; it does not change it.  The script runtime works in place on the Go maps it is handed, so where a query term hands bindings to RunJavascript, the map it hands over is made for that run and its values went through core.Copy: otherwise `c.count = (c.count||0)+1` in a condition changes the bound object for every sibling binding that shares it and for the terms and actions that come after (the same defect as ACTION-BINDINGS-OWN, one call site over)", 1)
+		rj := w.Func("core", "RunJavascript")
+		cp := w.Func("core", "Copy")
+		n := 0
+		for _, fn := range w.Funcs {
+			if w.RelPkg(fn) != "core" || isTestFile(w, fn) || len(fn.Blocks) == 0 || !strings.Contains(fname(fn), "Query") {
+				continue
+			}
+			allInstrs(fn, func(in ssa.Instruction) {
+				c := callOf(in)
+				if c == nil || c.StaticCallee() != rj || len(c.Args) < 2 {
+					return
+				}
+				// the maps made in this function that reach the script's bindings
+				var made []*ssa.MakeMap
+				allInstrs(fn, func(x ssa.Instruction) {
+					mk, ok := x.(*ssa.MakeMap)
+					if !ok {
+						return
+					}
+					reaches := dependsOn(c.Args[1], func(v ssa.Value) bool { return v == ssa.Value(mk) })
+					if !reaches {
+						// through the variable's slot (a pointer-receiver method is called on it)
+						for _, ref := range *mk.Referrers() {
+							if st, isS := ref.(*ssa.Store); isS && st.Val == ssa.Value(mk) {
+								if dependsOn(c.Args[1], func(v ssa.Value) bool { return v == st.Addr }) {
+									reaches = true
+								}
+							}
+						}
+					}
+					if reaches {
+						made = append(made, mk)
+					}
+				})
+				n++
+				key := "fn=" + fname(fn) + " script-bindings#" + itoa(n)
+				if len(made) == 0 {
+					r.violation("CODE-BINDINGS-OWN", key, w.PosOf(in), "the script is handed bindings that were not made for this run: what it writes, the query's other terms and the rule's actions see")
+					return
+				}
+				bad := ""
+				for _, mk := range made {
+					upd := func(mu *ssa.MapUpdate) {
+						if !dependsOn(mu.Value, func(v ssa.Value) bool {
+							cc, ok := v.(*ssa.Call)
+							return ok && cc.Common().StaticCallee() == cp
+						}) {
+							bad = w.PosOf(mu)
+						}
+					}
+					for _, ref := range *mk.Referrers() {
+						if mu, ok := ref.(*ssa.MapUpdate); ok && mu.Map == ssa.Value(mk) {
+							upd(mu)
+						}
+						if st, isS := ref.(*ssa.Store); isS && st.Val == ssa.Value(mk) {
+							// updates through loads of the slot
+							if al, isA := st.Addr.(*ssa.Alloc); isA {
+								for _, r2 := range *al.Referrers() {
+									if ld, isL := r2.(*ssa.UnOp); isL && ld.Op == token.MUL {
+										for _, r3 := range *ld.Referrers() {
+											if mu, ok := r3.(*ssa.MapUpdate); ok && mu.Map == ssa.Value(ld) {
+												upd(mu)
+											}
+										}
+									}
+								}
+							}
+						}
+					}
+				}
+				if bad != "" {
+					r.violation("CODE-BINDINGS-OWN", key, bad, "the script's map is its own, the values in it are the incoming bindings' own objects (no core.Copy on the way): a condition that writes to a bound object changes it for the sibling bindings, the later terms and the actions")
+				} else {
+					r.ok("CODE-BINDINGS-OWN", key, w.PosOf(in), "a map made for the run, values copied")
+				}
+			})
+		}
+		if n == 0 {
+			r.exempt("CODE-BINDINGS-OWN", "scope=core queries", "", "no query term calls RunJavascript: shape not recognised, not decided")
+		}
+	}
+}
